@@ -200,9 +200,12 @@ func checkC17(c *Ctx) {
 				if s, isS := constString(r); isS && s == "?" && notFound(in.Block()) {
 					okQ = true
 				}
-				if phi, isPhi := r.(*ssa.Phi); isPhi {
-					for i, e := range phi.Edges {
-						if s, isS := constString(e); isS && s == "?" && notFound(phi.Block().Preds[i]) {
+			}
+		case *ssa.Phi: // sub := "?"; if … { sub = acs } else if … { sub = fb }   (or the returned value)
+			for i, e := range x.Edges {
+				if s, isS := constString(e); isS && s == "?" {
+					for _, g := range rawGuardsOnEdge(x.Block().Preds[i], x.Block()) {
+						if ex, ok := g.Cond.(*ssa.Extract); ok && len(fbL) == 1 && ex.Tuple == ssa.Value(fbL[0].(*ssa.Lookup)) && ex.Index == 1 && !g.Positive {
 							okQ = true
 						}
 					}
